@@ -496,8 +496,9 @@ func startWithListenerFds(cdyfile Input, inst *Instance, restartFds map[string]r
 	instances = append(instances, inst)
 	instancesMu.Unlock()
 	var err error
+	completed := false // stays false when a panic unwinds through here
 	defer func() {
-		if err != nil {
+		if err != nil || !completed {
 			instancesMu.Lock()
 			for i, otherInst := range instances {
 				if otherInst == inst {
@@ -572,6 +573,7 @@ func startWithListenerFds(cdyfile Input, inst *Instance, restartFds map[string]r
 	started = true
 	mu.Unlock()
 
+	completed = true
 	return nil
 }
 
